@@ -127,8 +127,11 @@ func newEvalDom(p *Program) *evalDom {
 	// wrappers: loop-free functions that call the dispatcher directly
 	d.wrapper = map[*ssa.Function]bool{}
 	for _, fn := range all {
-		if fn == d.evalFn || len(loopsOf(fn)) > 0 || len(fn.AnonFuncs) > 0 {
-			continue // loops, closures and range-over-func bodies are real helpers, not wrappers
+		if fn == d.evalFn || len(fn.AnonFuncs) > 0 {
+			continue // closures and range-over-func bodies are real helpers, not wrappers
+		}
+		if len(loopsOf(fn)) > 0 && !d.evaluatesNodeMap(fn) {
+			continue // loops are real helpers, except the one loop that evaluates every node of a map of nodes it was given
 		}
 		// a wrapper only forwards: every recursive evaluation in it is of a node it received, against a current value
 		// and a scope it received (parameters), never against something it computed
@@ -279,6 +282,36 @@ func (d *evalDom) partOfDispatcherFn() func(f *ssa.Function) bool {
 		return ok
 	}
 	return part
+}
+
+// evaluatesNodeMap: fn has exactly one loop, a range over a parameter of type map[string]Node, and calls nothing of the
+// repository but the dispatcher (the fields of a multi-select hash or the bindings of a let, evaluated one by one).
+func (d *evalDom) evaluatesNodeMap(fn *ssa.Function) bool {
+	if len(loopsOf(fn)) != 1 {
+		return false
+	}
+	ranged := false
+	for _, b := range fn.Blocks {
+		for _, in := range b.Instrs {
+			switch x := in.(type) {
+			case *ssa.Range:
+				prm, ok := x.X.(*ssa.Parameter)
+				if !ok {
+					return false
+				}
+				m, ok := prm.Type().Underlying().(*types.Map)
+				if !ok || !isNodeType(m.Elem()) {
+					return false
+				}
+				ranged = true
+			case ssa.CallInstruction:
+				if cf := x.Common().StaticCallee(); cf != nil && cf != d.evalFn && cf.Pkg == fn.Pkg {
+					return false
+				}
+			}
+		}
+	}
+	return ranged
 }
 
 // nodeForms returns the dynamic types (T or *T) under which the parser stores its node structs in the Node interface.
@@ -538,6 +571,7 @@ type pathFacts struct {
 	Pushes  []*Event
 	Lookups []*Event
 	Conds   []string
+	CurNil  []string // nil tests of the current value on the path (not part of the rendered line)
 	Result  string
 	Err     string // "" nil; "eval" propagated; "h#k" helper's; "T" definite error type; "?" other
 	Line    string
@@ -705,6 +739,13 @@ func (d *evalDom) facts(o Outcome) pathFacts {
 			x, y := v.x, v.y
 			if isDefNil(x) {
 				x, y = y, x
+			}
+			if isDefNil(y) && x != nil && avKey(x) == avKey(d.cur) {
+				t := "@==nil"
+				if (v.op.String() == "==") != c.Truth {
+					t = "@!=nil"
+				}
+				pf.CurNil = append(pf.CurNil, t)
 			}
 			if isDefNil(y) {
 				if sy, ok := x.(avSym); ok && (sy.tag == "val" || strings.HasPrefix(sy.tag, "h:")) {
